@@ -403,3 +403,32 @@ def call_route_pass(ctx):
                 continue
             if any(got.get(k, 0) != exp.get(k, 0) for k in set(got) | set(exp)):
                 ctx.violation('call-differs', case, str(exp)[:250], str(got)[:250], key='call-route:big-ints')
+    # (6) array arguments with an exact zero at SOME sample, and a result with ONE free symbol called positionally with array-like
+    # values (length 3, length 1, 0-d, 2-d): every sample of every blade equals the substitution
+    alg = make_algebra([1, 1, 1])
+    one = alg.multivector(keys=(1, 6), values=['s', Fraction(3, 2)]).cp(alg.multivector(keys=(2, 4), values=[1, 2]))
+    two = alg.vector(name='u') * alg.multivector(keys=(1, 2), values=['t', 2])
+    grids = [np.array([0.0, 1.0, 2.0]), np.array([2.0]), np.array(3.0), np.array([[0.0, 1.0], [2.0, 0.0]])]
+    for nm, m in (('one free symbol', one), ('four free symbols', two)):
+        fs = sorted(m.free_symbols, key=lambda sy: sy.name)
+        for gi, grid in enumerate(grids):
+            a = {sy.name: (grid if j == 0 else grid * 0 + (j + 1.0)) for j, sy in enumerate(fs)}
+            for form in ('keyword', 'positional'):
+                case = {'multivector': nm, 'argument_shape': list(np.shape(grid)), 'first_argument': np.asarray(grid).tolist(), 'form': form}
+                ctx.case(case, tag='call-route:array-samples')
+                try:
+                    r = m(**a) if form == 'keyword' else m(*[a[sy.name] for sy in fs])
+                    rd = dict(zip(r.keys(), r.values()))
+                except Exception as e:
+                    ctx.violation('call-raises', case, 'a multivector', repr(e)[:200], key='call-route:array-samples:raises')
+                    continue
+                bad = None
+                for k, c in zip(m.keys(), m.values()):
+                    f = sympy.lambdify([sympy.Symbol(n) for n in a], sympy.sympify(c), 'numpy')
+                    exp = np.asarray(f(*[np.asarray(v, dtype=float) for v in a.values()]), dtype=float)
+                    got = np.asarray(rd.get(k, 0), dtype=float)
+                    shp = np.broadcast(got, exp).shape
+                    if not np.allclose(np.broadcast_to(got, shp), np.broadcast_to(exp, shp)):
+                        bad = (int(k), exp.tolist(), got.tolist()); break
+                if bad:
+                    ctx.violation('call-differs', {**case, 'blade': bad[0]}, str(bad[1])[:200], str(bad[2])[:200], key='call-route:array-samples')
